@@ -11,7 +11,7 @@ static const char LAB[4] = { 'a', 'b', 'c', 'd' };      /* 'd' is only ever a pr
 
 typedef struct { spif_list_t l; spif_obj_t e[SMAX + 2]; char lab[SMAX + 2]; int n; } st_t;
 
-enum { K_APPEND, K_PREPEND, K_INSERT_AT, K_REMOVE, K_REMOVE_AT, K_REVERSE };
+enum { K_APPEND, K_PREPEND, K_INSERT_AT, K_REMOVE, K_REMOVE_AT, K_REVERSE, K_DONE };      /* done(): the list gives up everything it holds and stays usable */
 typedef struct { int k, x, i; } op_t;
 static op_t OPS[400]; static int NOPS;
 
@@ -23,6 +23,7 @@ static void build_ops(void)
     for (int x = 0; x < 4; x++) OPS[NOPS++] = (op_t) { K_REMOVE, x, 0 };
     for (int i = -(S + 2); i <= S + 2; i++) OPS[NOPS++] = (op_t) { K_REMOVE_AT, 0, i };
     OPS[NOPS++] = (op_t) { K_REVERSE, 0, 0 };
+    OPS[NOPS++] = (op_t) { K_DONE, 0, 0 };
 }
 static void op_name(int i, char *b, size_t n)
 {
@@ -34,6 +35,7 @@ static void op_name(int i, char *b, size_t n)
     case K_REMOVE: snprintf(b, n, "remove(%c)", LAB[o->x]); break;
     case K_REMOVE_AT: snprintf(b, n, "remove_at(%d)", o->i); break;
     case K_REVERSE: snprintf(b, n, "reverse()"); break;
+    case K_DONE: snprintf(b, n, "done()"); break;
     }
 }
 static spif_list_t new_list(void)
@@ -149,6 +151,10 @@ static void apply(void *vs, int op)
                 memmove(s->e + i, s->e + i + 1, sizeof(s->e[0]) * (size_t) (s->n - i - 1)); memmove(s->lab + i, s->lab + i + 1, (size_t) (s->n - i - 1)); s->n--; }
         }
         break; }
+    case K_DONE: { m = "done"; mc_set_shape(shape);
+        spif_bool_t r = SPIF_LIST_DONE(s->l);
+        if (!r) FAIL(site(m), "model:return", shape, "done returned FALSE");
+        s->n = 0; break; }
     case K_REVERSE: { m = "reverse"; mc_set_shape(shape);
         spif_bool_t r = SPIF_LIST_REVERSE(s->l);
         if (!r) FAIL(site(m), "model:return", shape, "reverse returned FALSE");
